@@ -90,6 +90,7 @@ type step struct {
 	Shards []int    `json:"shards,omitempty"` // cachedelete
 	Faults [][]interface{} `json:"faults,omitempty"` // faults: [kind, at] plans for the vfault file layer
 	Steps [][]step `json:"steps,omitempty"` // par: groups run concurrently, each group sequential
+	Cancelled bool `json:"cancelled,omitempty"` // discard: call Discard with a context that is already cancelled
 	Must  bool     `json:"must,omitempty"`  // cachefiles: every shard file must exist now (recorded for the monitor)
 	Kills []killPlan `json:"kills,omitempty"` // kills: machine kills at RPC boundaries (C02), counted from this step on
 }
@@ -717,7 +718,14 @@ func (r *runner) doStep(ctx context.Context, st *step, lane int) {
 		}
 		// logged before the call: anything that overlaps the Discard may already see the outputs gone
 		r.emit(vtr.Rec{"do": "discard", "res": st.Res, "lane": lane})
-		res.Discard(ctx)
+		dctx := ctx
+		if st.Cancelled {
+			// the caller gave up on the Discard: its calls to the workers fail
+			c, cancel := context.WithCancel(ctx)
+			cancel()
+			dctx = c
+		}
+		res.Discard(dctx)
 		r.emit(vtr.Rec{"do": "discard-done", "res": st.Res, "lane": lane})
 	case "sleep":
 		time.Sleep(time.Duration(st.N) * time.Millisecond)
@@ -1058,6 +1066,12 @@ func (k *killer) RoundTrip(req *http.Request) (*http.Response, error) {
 		return k.base.RoundTrip(req)
 	}
 	switch pl.Phase {
+	case "fail": // the call does not reach the machine (which stays up)
+		k.mu.Lock()
+		k.nfired++
+		k.log = append(k.log, vtr.Rec{"method": pl.Method, "ordinal": pl.Ordinal, "phase": pl.Phase, "killed": false})
+		k.mu.Unlock()
+		return nil, fmt.Errorf("verif: call to %s failed", addr)
 	case "before":
 		k.kill(addr, pl)
 		return k.base.RoundTrip(req)
